@@ -49,6 +49,10 @@ impl fmt::Display for FileTransferPluginError {
 
 impl Error for FileTransferPluginError {}
 
+/// upper bound for the buffer pre-allocated from the sizes announced by a FLST message.
+/// Larger files are still supported as the buffer grows on demand.
+const MAX_PREALLOC_SIZE: u64 = 64 * 1024 * 1024;
+
 #[derive(Debug, PartialEq)]
 enum FileTransferState {
     /// we handle the case where only the FLST message is lost but the FLDA starts with the 1st package
@@ -325,7 +329,11 @@ impl Plugin for FileTransferPlugin {
                                 recvd_packages: 0,
                                 recvd_payload: 0,
                                 file_data: Vec::with_capacity(if keep_data {
-                                    (nr_packages * buffer_size) as usize
+                                    // the announced sizes are untrusted: no overflow, no huge allocation.
+                                    // (both are > 0 so the capacity stays > 0 which indicates to keep the data)
+                                    nr_packages
+                                        .saturating_mul(buffer_size)
+                                        .min(MAX_PREALLOC_SIZE) as usize
                                 } else {
                                     0
                                 }),
